@@ -38,7 +38,7 @@ Definition block_peer (m : bmap) (p : pid) (d now : Z) : bmap :=
   | None => set p {| e_start := now; e_dur := d |} m
   end.
 
-(* blockPeer before commit 7f68b0d: unconditional overwrite *)
+(* blockPeer before commit 6a06465: unconditional overwrite *)
 Definition block_peer_v0 (m : bmap) (p : pid) (d now : Z) : bmap :=
   set p {| e_start := now; e_dur := d |} m.
 
